@@ -57,6 +57,10 @@ RecoverComplete(d, z, k) == LET sg == SigOf(d, z, k) IN
 RecoverAll(z, r, s) == Recover(z, r, s, 2) \cup
                        {RecoverFrom(R, z, r, s) : R \in {pt \in Affine : pt[1] = r + N}}
 VerifyIffRecoverable(z, r, s) == VerifyingKeys(z, r, s) = RecoverAll(z, r, s)
+\* the signatures valid for (d*G, z) are exactly those some usable nonce produces (k and N-k give s and N-s)
+NonceImages(d, z) == {<<SigOf(d, z, k).r, SigOf(d, z, k).s>> : k \in {kk \in 1..(N - 1) : SigUsable(SigOf(d, z, kk))}}
+ValidAreNonceImages(d, z) ==
+    {rs \in (1..(N - 1)) \X (1..(N - 1)) : Verify(PubKey(d), z, rs[1], rs[2])} = NonceImages(d, z)
 \* out-of-range components never verify
 RangeRejected(Q, z, r, s) == (~InRange(r) \/ ~InRange(s)) => ~Verify(Q, z, r, s)
 \* a well-formed signature whose verification point u1*G + u2*Q is the identity is rejected
